@@ -146,6 +146,10 @@ def fault_scenarios(seed, tier):
     big = gen.Grammar(bt, [('S', 'l', 1, ['S', 'I'], [0, 1]), ('S', None, 0, ['I'], [0])] +
                       [('I', 'i%d' % j, 1, [bt[(37 * j) % nbig][0], bt[(91 * j + 5) % nbig][0]], [0, 1]) for j in range(12)], True)
     plans.append((big, None, [bt[0][1], bt[5][1], bt[37][1], bt[96][1]], dict(rec=0)))
+    # hundreds of situations: the per-parse vectors indexed by situation number grow during the parse
+    nalt = 130
+    many = gen.Grammar([('a', 97)], [('S', None, 0, ['X%d' % j], [0]) for j in range(nalt)] + [('X%d' % j, 'x', 1, ['a'], [0]) for j in range(nalt)], True)
+    plans.append((many, None, [97], dict(rec=0)))
     nrand = 10 if tier == 'thorough' else 2
     for _ in range(nrand):
         g = gen.gen_grammar(r, err_prob=0.4)
@@ -202,8 +206,8 @@ def run_c17(pid, P, tier, seed):
                 if kind == 'create' and flavour == 'cxx': continue      # a C++ constructor cannot return NULL
                 n = per[i]
                 ks = list(range(1, n + 1))
-                if tier != 'thorough' and n > 60:
-                    stride = max(1, n // 60)
+                if tier != 'thorough' and n > 1000:
+                    stride = max(1, n // 300)
                     ks = sorted(set(ks[::stride] + ks[:10] + ks[-10:]))
                 info['ops'][o.split()[0]] = dict(allocations=n, injected=len(ks))
                 for k in ks:
@@ -267,6 +271,12 @@ def perf_cases(tier, las=(0, 1, 2), hook=8, with_rec=False):
                 cases.append(['case P-%s-%d-%d perf' % (fam, n, la), 'notree', 'quietev', 'text 0 %s' % d.encode().hex(),
                               'op 1 create 0', 'op 2 descr 0 0 1', 'op 3 set 0 rec 0', 'op 4 set 0 la %d' % la,
                               'op 5 parse 0 user user %d %s' % (hook, perf_tokens(fam, n)), 'op 6 free 0', 'end'])
+            # building all parses / the minimal-cost parse uses further tables (parse states, visited nodes)
+            if n <= 64000 and not with_rec:
+                for cfgname, key in (('all', 'one 0'), ('cost', 'cost 1')):
+                    cases.append(['case P-%s.%s-%d-1 perf' % (fam, cfgname, n), 'notree', 'quietev', 'text 0 %s' % d.encode().hex(),
+                                  'op 1 create 0', 'op 2 descr 0 0 1', 'op 3 set 0 %s' % key, 'op 4 set 0 rec 0',
+                                  'op 5 parse 0 user user %d %s' % (hook, perf_tokens(fam, n)), 'op 6 free 0', 'end'])
     d = ansic.description(); t = ansic.tokens()
     asizes = [1000, 2000, 4000, 8000, 16000, 32000] + ([64000, 128000, 256000, 512000] if tier == 'thorough' else [])
     for n in asizes:
@@ -285,6 +295,7 @@ def perf_rows(res):
         for l in obs:
             w = l.split()
             if l.startswith('o 4 lib'): prevbytes = int(dict(x.split('=') for x in w[3:]).get('bytes', 0))
+            elif l.startswith('o 5 cntp'): m.update({'p' + k: int(v) for k, v in (x.split('=') for x in w[3:])})
             elif l.startswith('o 5 cnt'): m.update({k: int(v) for k, v in (x.split('=') for x in w[3:])})
             elif l.startswith('o 5 lib'): m['bytes'] = int(dict(x.split('=') for x in w[3:]).get('bytes', 0)) - prevbytes
             elif l.startswith('o 5 parse'): m['rc'] = w[3]
@@ -294,7 +305,7 @@ def perf_rows(res):
 
 
 # calibrated on the unchanged tree (max observed: bytes 2.15, searches 2.93, sits 1.4, cores 2.1, sets 2.0)
-PERF_LIMITS = dict(bytes=2.6, searches=3.5, sits=1.7, cores=2.6, sets=2.2, dists=2.2, triples=2.2)
+PERF_LIMITS = dict(bytes=2.6, searches=3.5, psearches=3.5, sits=1.7, cores=2.6, sets=2.2, dists=2.2, triples=2.2)
 
 
 def run_c18(pid, P, tier, seed):
@@ -313,7 +324,7 @@ def run_c18(pid, P, tier, seed):
                 failures.append(dict(prop=pid, kind='K', case=cid, op='5', detail='[%s] parse failed: %s' % (flavour, m), context=[], replay_lines=res.obs.get(cid, [])[:12]))
         for (fam, la), byn in sorted(groups.items()):
             ns = sorted(byn)
-            cov['measurements']['%s/%s/la%d' % (flavour, fam, la)] = {str(n): {k: byn[n].get(k) for k in ('bytes', 'searches', 'collisions', 'sits', 'cores', 'sets', 'gotos')} for n in ns}
+            cov['measurements']['%s/%s/la%d' % (flavour, fam, la)] = {str(n): {k: byn[n].get(k) for k in ('bytes', 'searches', 'collisions', 'psearches', 'pcollisions', 'sits', 'cores', 'sets', 'gotos')} for n in ns}
             for a, b in zip(ns, ns[1:]):
                 if b != 2 * a or 'toks' not in byn[a] or 'toks' not in byn[b]: continue
                 cov['distinct_nontrivial'] += 1
@@ -328,8 +339,9 @@ def run_c18(pid, P, tier, seed):
                 # hash collisions: on the unchanged tree the number of collisions per search settles
                 # around 1 (max 1.6 up to 512k tokens; the steep growth at small n is warm-up of tables
                 # sized for the input), so work in collisions is linear iff collisions <= c * searches
-                for n_ in (a, b):
-                    x, y = byn[n_].get('searches', 0), byn[n_].get('collisions', 0)
+                for n_, (ks, kc) in [(n_, kk) for n_ in (a, b) for kk in (('searches', 'collisions'), ('psearches', 'pcollisions'))]:
+                    # (p...: the same counters after the tree has been built)
+                    x, y = byn[n_].get(ks, 0), byn[n_].get(kc, 0)
                     ok = y <= 4 * x + 1000
                     vcount['collisions-per-search %s' % ('ok' if ok else 'bad')] += 1
                     if not ok:
